@@ -220,6 +220,9 @@ func c06Run(c *core.Ctx) {
 		for _, ws := range [][]string{{"ab"}, {"ab", "cd"}, {"ab", "cd", "efg"}} {
 			for _, cp := range wlSchemes {
 				for _, sp := range []Sep{{Kind: "none"}, {Kind: "SFDigits1"}} {
+					if sp.Kind != "none" && (L > 33 || len(ws) > 2) && !c.Thorough() {
+						continue
+					}
 					if c.Mine() {
 						c06Consumed(c, WLCase{Words: ws, Length: L, Cap: cp, Sep: sp})
 					}
